@@ -1,5 +1,364 @@
-"""stub"""
+"""C17 — AmpGen option files are read into the amplitudes and tables they state (DESIGN.md §4 C17)."""
+from __future__ import annotations
+
+import ast
+
+from ..core import guards
+from ..core import pyfacts as pf
+from ..core.larkfacts import grammar_facts
+from ..core.match import phi_alts, txt
 from ..core.source import AnchorMissing
-PROP="C17"
+from .common import ACHAIN, AMPGRAMMAR, ATRANS, ckey, enclosing, fn, returns, stmt_of, where
+
+PROP = "C17"
+FILES = [ACHAIN, ATRANS, AMPGRAMMAR, "modeling/decay.py"]
+EXPLANATION = (
+    "C17.1 transformer callbacks and ampgen.lark agree: every callback relied upon names a rule or alias, tuple unpackings "
+    "have the arity of every child word of their rule, every get_from_parser key names a tree; C17.2 container-depth typing "
+    "of get_from_parser results in read_ampgen (list of child lists → one unpack = child list → second unpack = child; "
+    "`.children` is illegal on them); C17.3 table columns agree with the order and number of values the transformer emits; "
+    "C17.4 polar→complex conversion is reached exactly when the cartesian switch is off and has the shape "
+    "magnitude·exp(i·phase); C17.5 expansion is the product over all daughters with by-name substitution in file order, only "
+    "lines of the event-type mother are returned, results are returned in the documented order; C17.6 the cartesian flag is "
+    "the integer value of the option token.")
+NOT_DECIDED = ["'every text in the options grammar is read without internal error' as a whole (only the typed accessors are checked)",
+               "the numeric coupling value; particle-name lookup (third-party data)"]
+G = AMPGRAMMAR
+RELIED = ["constant", "event_type", "checkfixed", "variable", "cplx_decay_line", "decay"]
+
+
 def run(ctx, ss):
-    raise AnchorMissing("rules not built yet")
+    for r, f in (("C17.1", c17_1), ("C17.2", c17_2), ("C17.3", c17_3), ("C17.4", c17_4), ("C17.5", c17_5)):
+        ctx.guard(r, f, ss)
+
+
+def c17_1(ctx, ss):
+    gf = grammar_facts(ss, G)
+    mf = pf.module_facts(ss, ATRANS)
+    cf = mf.classes.get("AmpGenTransformer")
+    if cf is None:
+        raise AnchorMissing("class AmpGenTransformer not found")
+    for name in RELIED:
+        k = f"{ATRANS}:AmpGenTransformer.{name}"
+        if name not in cf.methods:
+            ctx.violation("C17.1", k, f"src/decaylanguage/{ATRANS}:{cf.node.lineno}", f"the reader relies on a `{name}` callback that no longer exists")
+        elif name not in gf.tree_names:
+            ctx.violation("C17.1", k, where(cf.methods[name], cf.methods[name].node), f"callback `{name}` names no rule or alias of {G}: it is never invoked, the raw tree reaches the reader")
+        else:
+            ctx.holds("C17.1", k, where(cf.methods[name], cf.methods[name].node), f"callback `{name}` names a rule/alias of the grammar", 1)
+    # tuple unpack arities
+    n = 0
+    for name, m in cf.methods.items():
+        if name.startswith("_") or name not in gf.tree_names:
+            continue
+        words = gf.rule_words(name)
+        p = m.params[1] if len(m.params) > 1 else None
+        bound = {}     # local name -> child index in `lines`
+        for st in pf.iter_stmts(m.node.body):
+            if isinstance(st, ast.Assign) and isinstance(st.targets[0], (ast.Tuple, ast.List)):
+                tg = st.targets[0]
+                n += 1
+                k = ckey(m, st, "arity")
+                if isinstance(st.value, ast.Name) and st.value.id == p:
+                    lens = {len(w) for w in words}
+                    if lens == {len(tg.elts)} and not gf.unbounded(name):
+                        ctx.holds("C17.1", k, where(m, st), f"`{txt(st)[:50]}`: rule `{name}` always has {len(tg.elts)} children", len(words))
+                        for i, e in enumerate(tg.elts):
+                            if isinstance(e, ast.Name):
+                                bound[e.id] = i
+                    else:
+                        ctx.violation("C17.1", k, where(m, st), f"`{txt(st)[:50]}` unpacks {len(tg.elts)} values but rule `{name}` has {sorted(lens)} children (ValueError)")
+                elif isinstance(st.value, ast.Attribute) and st.value.attr == "children":
+                    base = st.value.value
+                    idx = None
+                    if isinstance(base, ast.Name) and base.id in bound:
+                        idx = bound[base.id]
+                    elif isinstance(base, ast.Subscript) and isinstance(base.value, ast.Name) and base.value.id == p and isinstance(base.slice, ast.Constant):
+                        idx = base.slice.value
+                    if idx is None:
+                        n -= 1
+                        continue
+                    syms = {w[idx] for w in words if len(w) > idx}
+                    bad = [s for s in syms if s[0] != "T"]
+                    sub_lens = set()
+                    for s in syms:
+                        if s[0] == "T":
+                            if s[1] in cf.methods and s[1] not in ("particle",):
+                                bad.append(("callback-result", s[1]))
+                            sub_lens |= {len(w) for w in gf.rule_words(s[1])}
+                    if bad:
+                        ctx.violation("C17.1", k, where(m, st), f"`{txt(st)[:50]}`: child {idx} of `{name}` can be {bad[0]}, which has no .children")
+                    elif sub_lens == {len(tg.elts)}:
+                        ctx.holds("C17.1", k, where(m, st), f"`{txt(st)[:50]}`: child {idx} of `{name}` always has {len(tg.elts)} children", len(syms))
+                    else:
+                        ctx.violation("C17.1", k, where(m, st), f"`{txt(st)[:50]}` unpacks {len(tg.elts)} values but the node has {sorted(sub_lens)} children")
+    ctx.count("unpack_sites", n)
+    ctx.floor("C17.1", "tuple unpack sites in the transformer", n, 6)
+    # get_from_parser keys
+    ff, flow = fn(ss, ACHAIN, "AmplitudeChain.read_ampgen")
+    keys = [c for c in pf.calls_in(ff.node) if isinstance(c.func, ast.Name) and c.func.id == "get_from_parser"]
+    for c in keys:
+        lit = c.args[1].value if len(c.args) > 1 and isinstance(c.args[1], ast.Constant) else None
+        k = ckey(ff, c, "key")
+        if lit in gf.tree_names:
+            ctx.holds("C17.1", k, where(ff, c), f"get_from_parser key '{lit}' names a tree", 1)
+        else:
+            ctx.violation("C17.1", k, where(ff, c), f"get_from_parser key {lit!r} names no tree of {G}: the table is silently empty")
+    ctx.floor("C17.1", "get_from_parser sites", len(keys), 5)
+    gp, gflow = fn(ss, ATRANS, "get_from_parser")
+    r = returns(gp)
+    ok = len(r) == 1 and txt(r[0].value) == "[v.children for v in parser.find_data(key)]"
+    (ctx.holds if ok else ctx.violation)("C17.1", ckey(gp, None, "shape"), where(gp, gp.node),
+                                          "get_from_parser returns the child list of every matching node, in document order" if ok else f"get_from_parser returns `{txt(r[0].value) if r else None}`")
+
+
+def c17_2(ctx, ss):
+    ff, flow = fn(ss, ACHAIN, "AmplitudeChain.read_ampgen")
+    depth: dict[str, int] = {}
+    src: dict[str, str] = {}
+    n = 0
+    for st in pf.iter_stmts(ff.node.body):
+        if isinstance(st, ast.Assign):
+            v, t = st.value, st.targets[0]
+            if isinstance(v, ast.Call) and isinstance(v.func, ast.Name) and v.func.id == "get_from_parser":
+                key = v.args[1].value if len(v.args) > 1 and isinstance(v.args[1], ast.Constant) else "?"
+                if isinstance(t, ast.Name):
+                    depth[t.id], src[t.id] = 2, key
+                elif isinstance(t, (ast.Tuple, ast.List)) and len(t.elts) == 1 and isinstance(t.elts[0], ast.Name):
+                    depth[t.elts[0].id], src[t.elts[0].id] = 1, key
+                continue
+            if isinstance(t, (ast.Tuple, ast.List)) and len(t.elts) == 1 and isinstance(t.elts[0], ast.Name):
+                base = v
+                attr = None
+                if isinstance(base, ast.Attribute):
+                    attr, base = base.attr, base.value
+                if isinstance(base, ast.Name) and base.id in depth:
+                    n += 1
+                    k = ckey(ff, None, f"depth:{src[base.id]}:{txt(st)[:40]}")
+                    if attr is not None:
+                        ctx.violation("C17.2", ckey(ff, None, "fast_coherent_sum") if src[base.id] == "fast_coherent_sum" else k, where(ff, st),
+                                      f"`{txt(st)}`: `{base.id}` is a {'list of child lists' if depth[base.id] == 2 else 'child list' if depth[base.id] == 1 else 'leaf'} "
+                                      f"from get_from_parser('{src[base.id]}'), it has no .{attr} (AttributeError for every text containing that statement)")
+                    elif depth[base.id] <= 0:
+                        ctx.violation("C17.2", k, where(ff, st), f"`{txt(st)}` unpacks a leaf value")
+                    else:
+                        depth[t.elts[0].id], src[t.elts[0].id] = depth[base.id] - 1, src[base.id]
+                        ctx.holds("C17.2", k, where(ff, st), f"`{txt(st)}`: depth {depth[base.id] + (0 if t.elts[0].id != base.id else 1)} → {depth[t.elts[0].id]}", 1)
+    # other uses of `.children` on get_from_parser results
+    for a in pf.walk_no_nested(ff.node):
+        if isinstance(a, ast.Attribute) and a.attr == "children" and isinstance(a.value, ast.Name) and a.value.id in depth:
+            pass   # reported above when it feeds an unpack; a bare use is equally wrong
+    # the flag: integer value of the token
+    stores = [s for s in pf.iter_stmts(ff.node.body) if isinstance(s, ast.Assign) and txt(s.targets[0]) in ("cls.cartesian", "AmplitudeChain.cartesian")]
+    flag_sets = [s for s in stores if not isinstance(s.value, ast.Constant)]
+    k = ckey(ff, None, "flag-value")
+    if not flag_sets:
+        ctx.violation("C17.6", k, where(ff, ff.node), "the FastCoherentSum::UseCartesian option never sets the cartesian switch")
+    for s in flag_sets:
+        v = s.value
+        t = txt(v).replace(" ", "")
+        nm = [x.id for x in ast.walk(v) if isinstance(x, ast.Name) and x.id in depth]
+        leaf = bool(nm) and depth.get(nm[0]) == 0 and src.get(nm[0]) == "fast_coherent_sum"
+        ok_val = any(t == pat.format(n=nm[0]) for pat in ("bool(int({n}))", "int({n})!=0", "int({n})>0", "int({n})==1", "bool(int(str({n})))")) if nm else False
+        if leaf and ok_val:
+            ctx.holds("C17.6", k, where(ff, s), f"cartesian = {txt(v)} (integer value of the option token)", 2)
+        elif nm and not leaf:
+            ctx.violation("C17.6", k, where(ff, s), f"cartesian is computed from `{nm[0]}`, which is not the option's token (depth {depth.get(nm[0])})")
+        else:
+            ctx.violation("C17.6", k, where(ff, s), f"cartesian = `{txt(v)}`: not the integer value of the option (a non-empty token is always truthy, so 'UseCartesian 0' would switch it on)")
+        conds = [(txt(e), pol) for kind, e, pol in guards.path_conditions(ff.node, s) if kind == "if"]
+        if conds and not all(pol and e in src for e, pol in conds):
+            ctx.violation("C17.6", k + " :: guard", where(ff, s), f"the switch is set under {conds}")
+    ctx.count("unpack_sites", n)
+    ctx.floor("C17.2", "single-element unpacks of get_from_parser results", n + 1, 3)
+
+
+def c17_3(ctx, ss):
+    gf = grammar_facts(ss, G)
+    mf = pf.module_facts(ss, ATRANS)
+    cf = mf.classes["AmpGenTransformer"]
+    rf, rflow = fn(ss, ACHAIN, "AmplitudeChain.read_ampgen")
+    frames = {}
+    for c in pf.calls_in(rf.node):
+        if txt(c.func) in ("pd.DataFrame", "pandas.DataFrame", "DataFrame") and c.args:
+            cols = next((kw.value for kw in c.keywords if kw.arg == "columns"), None)
+            if cols is None:
+                continue
+            if isinstance(cols, ast.Call) and isinstance(cols.func, ast.Attribute) and cols.func.attr == "split" and isinstance(cols.func.value, ast.Constant):
+                names = cols.func.value.value.split()
+            elif isinstance(cols, (ast.List, ast.Tuple)):
+                names = [e.value for e in cols.elts if isinstance(e, ast.Constant)]
+            else:
+                raise AnchorMissing("DataFrame columns not a literal")
+            srcn = rflow.expand(c.args[0])
+            if isinstance(srcn, ast.Call) and txt(srcn.func) == "get_from_parser":
+                frames[srcn.args[1].value] = (names, c)
+    for cb, want_cols in (("variable", ["name", "fix", "value", "error"]), ("constant", ["name", "value"])):
+        m = cf.methods.get(cb)
+        if m is None:
+            continue
+        k = f"{ATRANS}:AmpGenTransformer.{cb} :: columns"
+        from ..core.defuse import flow_of
+        mflow = flow_of(ss, m)
+        r = returns(m)
+        lst = None
+        if len(r) == 1 and isinstance(r[0].value, ast.Call) and txt(r[0].value.func) == "Tree" and len(r[0].value.args) == 2 and isinstance(r[0].value.args[1], ast.List):
+            lst = r[0].value.args[1].elts
+            tname = r[0].value.args[0].value if isinstance(r[0].value.args[0], ast.Constant) else None
+        if lst is None:
+            raise AnchorMissing(f"{cb}: does not return Tree(name, [..])")
+        if tname != cb:
+            ctx.violation("C17.3", k + " :: name", where(m, r[0]), f"callback `{cb}` returns a tree named {tname!r}: get_from_parser('{cb}') finds nothing")
+        # element i derives from child i
+        unp = [st for st in pf.iter_stmts(m.node.body) if isinstance(st, ast.Assign) and isinstance(st.targets[0], ast.Tuple) and txt(st.value) == m.params[1]]
+        order_ok = False
+        if unp:
+            names = [e.id for e in unp[0].targets[0].elts]
+            used = []
+            for e in lst:
+                ns = [x.id for x in ast.walk(e) if isinstance(x, ast.Name) and x.id in names]
+                used.append(ns[0] if len(ns) == 1 else None)
+            order_ok = used == names
+        if cb not in frames:
+            ctx.violation("C17.3", k, where(rf, rf.node), f"no table is built from get_from_parser('{cb}')")
+            continue
+        cols, call = frames[cb]
+        if cols == want_cols and len(lst) == len(cols) and order_ok:
+            ctx.holds("C17.3", k, where(rf, call), f"`{cb}` emits {len(lst)} values in child order ↔ columns {cols}", len(cols))
+        else:
+            ctx.violation("C17.3", k, where(rf, call), f"`{cb}` emits {len(lst)} values (in child order: {order_ok}) but the table has columns {cols} (expected {want_cols})")
+        idx = [c2 for c2 in pf.calls_in(rf.node) if isinstance(c2.func, ast.Attribute) and c2.func.attr == "set_index" and any(call is x for x in ast.walk(c2))]
+        oki = bool(idx) and idx[0].args and isinstance(idx[0].args[0], ast.Constant) and idx[0].args[0].value == "name"
+        (ctx.holds if oki else ctx.violation)("C17.3", k + " :: index", where(rf, call), "rows are indexed by name" if oki else "the table is not indexed by the name column")
+    # value conversions in the callbacks
+    for cb, conv in (("variable", {1: None, 2: "float", 3: "float"}), ("constant", {1: "float"})):
+        m = cf.methods[cb]
+        r = returns(m)
+        lst = r[0].value.args[1].elts
+        ok = all((conv[i] is None and isinstance(lst[i], ast.Name)) or (isinstance(lst[i], ast.Call) and txt(lst[i].func) == conv[i]) for i in conv) and \
+            txt(lst[0]).startswith("str(") and ".children[0]" in txt(lst[0])
+        (ctx.holds if ok else ctx.violation)("C17.3", f"{ATRANS}:AmpGenTransformer.{cb} :: conversions", where(m, r[0]),
+                                              f"`{cb}`: name as str, numbers as float" if ok else f"`{cb}` emits `{[txt(e) for e in lst]}`")
+    m = cf.methods["checkfixed"]
+    r = returns(m)
+    from ..core.defuse import flow_of
+    t = flow_of(ss, m).text(r[0].value) if r else ""
+    ok = t in ("int(lines[0]) > 0", "int(lines[0]) != 0", "bool(int(lines[0]))")
+    (ctx.holds if ok else ctx.violation)("C17.3", f"{ATRANS}:AmpGenTransformer.checkfixed", where(m, m.node), "fix flag = int(token) > 0" if ok else f"fix flag is `{t}`")
+
+
+def c17_4(ctx, ss):
+    ff, flow = fn(ss, ACHAIN, "AmplitudeChain.from_matched_line")
+    stores = [s for s in pf.iter_stmts(ff.node.body) if isinstance(s, ast.Assign) and txt(s.targets[0]) in ('mat["amp"]', "mat['amp']")]
+    k = ckey(ff, None, "polar")
+    if len(stores) != 1:
+        ctx.violation("C17.4", k, where(ff, ff.node), f"expected one polar→complex store, found {len(stores)}")
+        return
+    s = stores[0]
+    conds = [c for c in guards.path_conditions(ff.node, s) if c[0] == "if"]
+
+    def mk(cart):
+        def atom(e):
+            t = txt(e)
+            if t in ("cls.cartesian", "AmplitudeChain.cartesian", "self.cartesian"):
+                return cart
+            if t == "'amp' in mat":
+                return True
+            return None
+        return atom
+    off = guards.reachable_under(conds, mk(False), flow)
+    on = guards.reachable_under(conds, mk(True), flow)
+    (ctx.holds if off is True else ctx.violation)("C17.4", k + " :: polar", where(ff, s),
+                                                   "cartesian off ⇒ the coupling is converted from (magnitude, phase)" if off is True
+                                                   else "with the cartesian switch off the polar→complex conversion is not (always) applied")
+    (ctx.holds if on is False else ctx.violation)("C17.4", k + " :: cartesian", where(ff, s),
+                                                   "cartesian on ⇒ the coupling stays real + i·imaginary" if on is False
+                                                   else "with the cartesian switch on the coupling is still converted as if it were polar")
+    v = flow.expand(s.value)
+    ok = txt(v) in ("mat['amp'].real * np.exp(mat['amp'].imag * 1j)", "mat['amp'].real * numpy.exp(mat['amp'].imag * 1j)", "mat['amp'].real * np.exp(1j * mat['amp'].imag)")
+    (ctx.holds if ok else ctx.violation)("C17.4", k + " :: shape", where(ff, s),
+                                          "amp = magnitude · exp(i · phase) with magnitude = first column, phase = second" if ok else f"the converted coupling is `{txt(v)[:100]}`")
+    # the reads of magnitude / phase precede the store
+    r = returns(ff)
+    okr = len(r) == 1 and txt(r[0].value) == "cls(**mat)"
+    (ctx.holds if okr else ctx.violation)("C17.4", ckey(ff, None, "result"), where(ff, ff.node), "the amplitude is built from the whole matched dictionary" if okr else "from_matched_line does not return cls(**mat)")
+    # amp assembled from the two numeric columns in the transformer
+    tf, tflow = fn(ss, ATRANS, "AmpGenTransformer.cplx_decay_line")
+    st = [x for x in pf.iter_stmts(tf.node.body) if isinstance(x, ast.Assign) and txt(x.targets[0]) in ('decay["amp"]', "decay['amp']")]
+    oka = len(st) == 1 and tflow.text(st[0].value) == "complex(float(lines[1].children[1]), float(lines[2].children[1]))"
+    (ctx.holds if oka else ctx.violation)("C17.4", ckey(tf, None, "columns"), where(tf, tf.node),
+                                          "amp = complex(value of the first triple, value of the second triple)" if oka
+                                          else f"the two numeric columns are assembled as `{tflow.text(st[0].value) if st else None}`")
+
+
+def c17_5(ctx, ss):
+    ff, flow = fn(ss, ACHAIN, "AmplitudeChain.expand_lines")
+    prods = [c for c in pf.calls_in(ff.node) if txt(c.func) in ("product", "itertools.product")]
+    k = ckey(ff, None, "expansion")
+    ok = False
+    if len(prods) == 1 and len(prods[0].args) == 1 and isinstance(prods[0].args[0], ast.Starred):
+        e = flow.expand(prods[0].args[0].value)
+        ok = isinstance(e, ast.ListComp) and len(e.generators) == 1 and not e.generators[0].ifs and txt(e.generators[0].iter) == "self.daughters" \
+            and txt(e.elt) == "__elem__(self.daughters).expand_lines(linelist)"
+    (ctx.holds if ok else ctx.violation)("C17.5", k + " :: product", where(ff, prods[0] if prods else ff.node),
+                                          "cartesian product over the expansions of ALL daughters" if ok else "the expansion is not the product over every daughter's expansion")
+    # each combination becomes one copy with those daughters
+    lps = enclosing(ff, prods[0], (ast.For,)) if prods else []
+    lp = [n for n in pf.walk_no_nested(ff.node) if isinstance(n, ast.For) and prods and n.iter is prods[0]]
+    okc = False
+    if lp:
+        body = lp[0].body
+        apps = [c for c in pf.calls_in(lp[0]) if isinstance(c.func, ast.Attribute) and c.func.attr == "append"]
+        sets = [s for s in body if isinstance(s, ast.Assign) and txt(s.targets[0]).endswith(".daughters")]
+        okc = len(apps) == 1 and len(sets) == 1 and txt(sets[0].value) == txt(lp[0].target) and flow.text(apps[0].args[0]) in ("copy(self)", "copy.copy(self)") \
+            and not any(isinstance(x, (ast.If, ast.Break, ast.Continue)) for x in ast.walk(lp[0]))
+    (ctx.holds if okc else ctx.violation)("C17.5", k + " :: copies", where(ff, lp[0] if lp else ff.node),
+                                          "one shallow copy per combination, carrying that combination as daughters" if okc else "not exactly one copy per combination of daughter expansions")
+    # leaf substitution: by name, in file order
+    comps = [n for n in pf.walk_no_nested(ff.node) if isinstance(n, ast.ListComp) and len(n.generators) == 2]
+    okl = False
+    if comps:
+        c = comps[0]
+        g1, g2 = c.generators
+        okl = txt(g1.iter) == "linelist" and [txt(i) for i in g1.ifs] in (["line.name == self.name"], ["self.name == line.name"]) \
+            and txt(g2.iter) == f"{txt(g1.target)}.expand_lines(linelist)" and not g2.ifs and txt(c.elt) == txt(g2.target)
+    (ctx.holds if okl else ctx.violation)("C17.5", k + " :: by-name", where(ff, comps[0] if comps else ff.node),
+                                          "a leaf is replaced by every separately given line of the same name, in file order, each expanded in turn" if okl
+                                          else "leaf substitution is not 'every line of the same name, in file order'")
+    rets = returns(ff)
+    if comps:
+        whole = [r for r in rets if flow.expand(r.value) is not None and txt(flow.expand(r.value)) == txt(flow.expand(comps[0]))]
+        conds = [(txt(e), pol) for r in whole for kind, e, pol in guards.path_conditions(ff.node, r) if kind == "if"]
+        okw = len(whole) == 1 and len(conds) == 2 and conds[0][1] and conds[1] == ("self.daughters", False)
+        (ctx.holds if okw else ctx.violation)("C17.5", k + " :: all-alternatives", where(ff, whole[0] if whole else ff.node),
+                                              "all separately given alternatives are returned when there is at least one" if okw
+                                              else "the list of alternatives is cut / filtered before it is returned")
+    okf = any(txt(r.value) == "[self]" for r in rets) and len(rets) == 3
+    (ctx.holds if okf else ctx.violation)("C17.5", k + " :: fallback", where(ff, ff.node), "a leaf without separate lines stays itself" if okf else "the fallback [self] for plain leaves changed")
+    # read_ampgen frame
+    rf, rflow = fn(ss, ACHAIN, "AmplitudeChain.read_ampgen")
+    r = returns(rf)
+    k2 = ckey(rf, None, "frame")
+    okr = len(r) == 1 and isinstance(r[0].value, ast.Tuple) and len(r[0].value.elts) == 4
+    if not okr:
+        ctx.violation("C17.5", k2, where(rf, rf.node), "read_ampgen does not return (lines, parameters, constants, states)")
+        return
+    lines_e, pars_e, consts_e, states_e = (rflow.expand(x) for x in r[0].value.elts)
+    want_states = "[particle_from_string_name(__elem__(get_from_parser(Lark(__phi__"
+    t_states = txt(states_e)
+    oks = t_states.startswith("[particle_from_string_name(__elem__(") and "get_from_parser(" in t_states and "'event_type')" in t_states and " if " not in t_states
+    (ctx.holds if oks else ctx.violation)("C17.5", k2 + " :: states", where(rf, r[0]), "states = particle of every event-type name, in order" if oks else f"states are `{t_states[:120]}`")
+    t_lines = txt(lines_e)
+    okl2 = isinstance(lines_e, ast.ListComp) and len(lines_e.generators) == 2 and len(lines_e.generators[0].ifs) == 1 and not lines_e.generators[1].ifs \
+        and ".particle == " in txt(lines_e.generators[0].ifs[0]) and "[0]" in txt(lines_e.generators[0].ifs[0]) \
+        and "cls.from_matched_line(" in txt(lines_e.generators[0].iter) and "'cplx_decay_line')" in txt(lines_e.generators[0].iter) \
+        and ".expand_lines(" in txt(lines_e.generators[1].iter)
+    (ctx.holds if okl2 else ctx.violation)("C17.5", k2 + " :: lines", where(rf, r[0]),
+                                           "amplitudes = expansion of every line of the event-type mother, in file order" if okl2 else f"amplitudes are `{t_lines[:160]}`")
+    okp = "'variable')" in txt(pars_e) and "'constant')" in txt(consts_e)
+    (ctx.holds if okp else ctx.violation)("C17.5", k2 + " :: tables", where(rf, r[0]), "parameters ← variable lines, constants ← constant lines" if okp else "the returned tables are not built from the variable / constant lines")
+    # the transformer is installed on the parser that reads the text
+    lark = [c for c in pf.calls_in(rf.node) if isinstance(c.func, ast.Name) and c.func.id == "Lark"]
+    okt = len(lark) == 1 and any(kw.arg == "transformer" and txt(kw.value) == "AmpGenTransformer()" for kw in lark[0].keywords)
+    (ctx.holds if okt else ctx.violation)("C17.5", k2 + " :: transformer", where(rf, lark[0] if lark else rf.node),
+                                          "the parser is built with AmpGenTransformer()" if okt else "the parser is not built with the AmpGen transformer")
